@@ -118,8 +118,35 @@ def variant(rng, name):
     return name + rng.choice(["x", "0", "1"]) if r < 0.8 else name[:-1] or "q"
 
 
+def gen_template(rng):
+    """short scripted histories around one iterator and ONE kind of mutation (each hits one recorded defect or none)"""
+    pre = rng.choice(["a", "foo", "n0", "x"])
+    lo = rng.choice([1, 8, 98])
+    k = rng.choice([1, 2, 3])
+    rng_word = "%s[%d-%d]" % (pre, lo, lo + k)
+    single = rng.choice(["b", "mid", "c7x", "9q"])
+    tail = rng.choice(["c", "z[1-2]", "d9", ""])
+    t = rng.random()
+    if t < 0.35:      # own removal of a host that is a record of its own, then go on
+        words = [rng_word, single] + ([tail] if tail else [])
+        steps = k + 2
+        ops = ["new", "push " + ",".join(words), "it_new"] + ["it_next 0"] * steps + ["it_remove 0"] + ["it_next 0"] * 3
+    elif t < 0.55:    # own removal inside / at the ends of a range
+        steps = rng.randrange(1, k + 2)
+        ops = ["new", "push " + rng_word + ("," + tail if tail else ""), "it_new"] + ["it_next 0"] * steps + ["it_remove 0"] + ["it_next 0"] * 3
+    elif t < 0.8:     # pop of the host the iterator stands on, then push
+        words = [rng_word, single]
+        ops = ["new", "push " + ",".join(words), "it_new"] + ["it_next 0"] * (k + 2) + ["pop", "push " + rng.choice(["z", "z[1-2]", single + "1"]), "it_next 0", "it_next 0"]
+    else:             # pop / shift while the iterator is somewhere in the middle
+        ops = ["new", "push " + rng_word + "," + single + ",w[1-2]", "it_new"] + ["it_next 0"] * rng.randrange(1, k + 3) + \
+              [rng.choice(["pop", "shift"])] * rng.choice([1, 2]) + ["it_next 0"] * 4
+    return ops + ["hosts 100000"]
+
+
 def gen_history(rng, nops, profile):
     """profile: which risky combinations the history may contain (keeps findings attributable)"""
+    if profile in ("own", "pop") and rng.random() < 0.5:
+        return gen_template(rng)
     g = Guide()
     ops = ["new"]
     e, hs = gen_expr(rng, big=(profile == "big"))
@@ -502,8 +529,8 @@ def judge(ctx, hl, s, ans, crash, m, sp, dist, shrinking=False):
         if not shrinking:
             ctx.offender(sig, "hostlist.c aborts (sanitizer / assertion / signal) at op %d `%s`: %s" %
                          (n, s[n] if n < len(s) else "?", crash_line(crash)),
-                         {"ops": small(ctx, hl, s, "crash"), "impl": [dec_ans(a) for a in ans][-6:]})
-        return tag or "crash"
+                         {"ops": small(ctx, hl, s, "crash:" + sig), "impl": [dec_ans(a) for a in ans][-6:]})
+        return tag or "crash:" + sig
     if k is not None:
         if not shrinking:
             ctx.disagreement("hl edit model vs hostlist.c", "op %d `%s`: impl `%s` model `%s`" %
